@@ -777,6 +777,47 @@ func init() {
 			setRes(st, in, PtrV{Obj: ex.newObj(st, zeroValue(et))})
 			return true
 		},
+		"(*sync.WaitGroup).Add": func(ex *Exec, st *State, args []Value, in *ssa.Call, pos token.Pos) bool {
+			st.wgs[ptrKey(args[0].(PtrV))] += int(int64(args[1].(*Term).Val))
+			return true
+		},
+		"(*sync.WaitGroup).Done": func(ex *Exec, st *State, args []Value, in *ssa.Call, pos token.Pos) bool {
+			st.wgs[ptrKey(args[0].(PtrV))]--
+			ex.wake(st)
+			return true
+		},
+		"(*sync.WaitGroup).Wait": func(ex *Exec, st *State, args []Value, in *ssa.Call, pos token.Pos) bool {
+			if st.wgs[ptrKey(args[0].(PtrV))] > 0 {
+				if len(st.threads) == 1 {
+					ex.finish(st, "blocked", "WaitGroup.Wait with nobody left to call Done", pos)
+					return false
+				}
+				panic("WaitGroup.Wait granted with a positive counter")
+			}
+			return true
+		},
+		"(*bytes.Reader).Len": func(ex *Exec, st *State, args []Value, in *ssa.Call, pos token.Pos) bool {
+			id, ok := ex.streamOf(st, args[0])
+			if !ok {
+				panic("bytes.Reader.Len on unknown reader")
+			}
+			setRes(st, in, ex.remaining(st, id))
+			return true
+		},
+		"io.ReadAll": func(ex *Exec, st *State, args []Value, in *ssa.Call, pos token.Pos) bool {
+			id, ok := ex.streamOf(st, args[0])
+			if !ok {
+				panic("io.ReadAll from unknown reader")
+			}
+			rem := ex.remaining(st, id)
+			a, off := ex.consume(st, id, rem)
+			setRes(st, in, TupleV{SliceV{ex.newObj(st, ArrV{ACopy(AConst(8, 0), Const(64, 0), a, off, rem), -1, 8}), Const(64, 0), rem, rem}, nilErr})
+			return true
+		},
+		"math/rand/v2.Uint32": func(ex *Exec, st *State, args []Value, in *ssa.Call, pos token.Pos) bool {
+			setRes(st, in, ex.freshVar("rand", BV(32)))
+			return true
+		},
 		"time.NewTimer": func(ex *Exec, st *State, args []Value, in *ssa.Call, pos token.Pos) bool {
 			et := in.Type().Underlying().(*types.Pointer).Elem()
 			z := zeroValue(et).(StructV)
@@ -1012,6 +1053,23 @@ func muOp(kind string) intrinsic {
 		st.mus[k] = m
 		ex.wake(st)
 		return true
+	}
+}
+
+func init() {
+	cas := intrinsics["sync/atomic.CompareAndSwapUint32"]
+	store := intrinsics["sync/atomic.StoreUint32"]
+	for _, ty := range []string{"Int32", "Int64", "Uint64", "Uintptr"} {
+		intrinsics["sync/atomic.CompareAndSwap"+ty] = cas
+		intrinsics["sync/atomic.Store"+ty] = store
+		intrinsics["sync/atomic.Load"+ty] = atomicLoad
+		intrinsics["sync/atomic.Add"+ty] = atomicAdd
+	}
+	intrinsics["sync/atomic.AddUint32"] = atomicAdd
+	for n := range intrinsics {
+		if strings.HasPrefix(n, "sync/atomic.") {
+			visibleOps[n] = "atomic"
+		}
 	}
 }
 
